@@ -197,7 +197,7 @@ class Check(object):
         return verdicts
 
     def verify_parallel(self, build, jobs, timeout_s=30, solver_jobs=12,
-                        solvers=('z3', 'cvc5'), procs=10):
+                        solvers=('z3', 'cvc5'), procs=10, keep=None):
         """jobs: list of (function name, variant tag).  `build(tag)` must
         return an Engine with the contracts registered (top-level function,
         picklable).  Symbolic execution runs in child processes."""
@@ -230,6 +230,9 @@ class Check(object):
                 if not real:
                     self.errors.append('%s: zero obligations generated' % nm)
             for r in o['obligations']:
+                if keep is not None and r.kind != 'canary' and \
+                        not keep(r.label):
+                    continue      # this check claims a subset of the labels
                 if r.kind != 'canary':
                     key = (r.label, r.text and smt.sha(r.text), o['tag'])
                     if key in uniq:
